@@ -650,6 +650,10 @@ pub fn gen_dataset(mut schema: SchemaAst, t: &mut Tape) -> World {
         if t.chance(1, 4) {
             vs.reverse();
         }
+        if !ep.card.to_many() {
+            // a singular entry point yields at most one vertex (schema-conforming dataset)
+            vs.truncate(1);
+        }
         ep.vertices = vs;
     }
     World { schema, vertices }
